@@ -17,6 +17,7 @@ package messagesfactory
 //@   ensures result.content.SignedHeader().BlockHeight() == blockHeight && result.content.SignedHeader().View() == view && result.content.SignedHeader().BlockHash() == blockHash
 //@   ensures result.content.Sender().MemberId() == f.memberId
 //@   ensures VerifiedMsg(f.keyManager, blockHeight, result.content.SignedHeader().Raw(), f.memberId, result.content.Sender().Signature())
+//@   ensures [canonical-header] content(result.content.SignedHeader().Raw()) == BlockRefBytes(protocol.LEAN_HELIX_COMMIT, f.instanceId, blockHeight, view, content(blockHash))
 
 //@ func (*MessageFactory).CreatePrepareMessage
 //@   props C20
@@ -26,6 +27,7 @@ package messagesfactory
 //@   ensures result.content.SignedHeader().BlockHeight() == blockHeight && result.content.SignedHeader().View() == view && result.content.SignedHeader().BlockHash() == blockHash
 //@   ensures result.content.Sender().MemberId() == f.memberId
 //@   ensures VerifiedMsg(f.keyManager, blockHeight, result.content.SignedHeader().Raw(), f.memberId, result.content.Sender().Signature())
+//@   ensures [canonical-header] content(result.content.SignedHeader().Raw()) == BlockRefBytes(protocol.LEAN_HELIX_PREPARE, f.instanceId, blockHeight, view, content(blockHash))
 
 // the proposal of a leader: the content builder and the message built from it describe one signed header
 // (A-MB-RT: BlockRefBytes is the canonical encoding of the five header fields; reading it back yields them)
@@ -57,6 +59,7 @@ package messagesfactory
 //@   ensures result.content.SignedHeader().BlockHeight() == blockHeight && result.content.SignedHeader().View() == view && result.content.SignedHeader().BlockHash() == blockHash
 //@   ensures result.content.Sender().MemberId() == f.memberId
 //@   ensures VerifiedMsg(f.keyManager, blockHeight, result.content.SignedHeader().Raw(), f.memberId, result.content.Sender().Signature())
+//@   ensures [canonical-header] content(result.content.SignedHeader().Raw()) == BlockRefBytes(protocol.LEAN_HELIX_PREPREPARE, f.instanceId, blockHeight, view, content(blockHash))
 
 //@ func (*MessageFactory).CreateNewViewMessage
 //@   props C20
